@@ -60,3 +60,13 @@ Definition settled (id : Z) (s s1 : state) (o : list output) : Prop :=
 Definition enqueued (id t : Z) (x : list Z) (tag : Z) (s s1 : state) (o : list output) : Prop :=
   delivs o = [] /\ s_ndeliv s1 = s_ndeliv s /\ s_queue s1 = s_queue s ++ [id] /\ queued_as id t x tag s1 /\
   (exists ta, aget t (s_ans s) = Some ta /\ a_ready ta = false /\ a_fin ta = false) /\ others_same id s s1.
+(* answered / ignored without the call ever being delivered or queued (id in use, unknown target, ...) *)
+Definition dropped (id : Z) (s s1 : state) (o : list output) : Prop :=
+  delivs o = [] /\ s_ndeliv s1 = s_ndeliv s /\ (s_queue s1 = s_queue s \/ s_queue s1 = zremove id (s_queue s)) /\
+  (forall a1, aget id (s_ans s1) = Some a1 -> a_st a1 = AIdle \/ aget id (s_ans s) = Some a1) /\ others_same id s s1.
+(* a promisedAnswer target whose answer has its results (the Return was made); importedCap: nothing to say *)
+Definition tgt_returned (tg : target) (s : state) : Prop :=
+  match parse_target tg with
+  | Some (PAns t _) => exists ta, aget t (s_ans s) = Some ta /\ a_ready ta = true
+  | _ => True
+  end.
